@@ -11,16 +11,22 @@ LockedInit (the bitmap's creator allocates under the lock), Bare (FMMULock on it
 NEW = the repaired protocol (Mutex, LockedInit); OLD = the protocols before the repairs, kept as
 adversaries.
 
- 1 DESIGN VERIFICATION  TLC checks the four invariants on the NEW protocol exhaustively: 2
-   participants, all interleavings, with and without a crash; 3 participants, all interleavings
-   (with a crash: thorough); the bare FMMULock protocol with 3 participants and a crash.  Also:
+ 1 DESIGN VERIFICATION  TLC checks the four invariants on the NEW protocol exhaustively, in an
+   environment where a participant may crash and where one kernel-facing call of a start-up
+   (connect, create_map, attach, obj_pin, obj_get) may fail: 2 participants with a crash and a
+   failing call, 3 participants with a failing call (thorough: also a crash), all interleavings;
+   the bare FMMULock protocol with 3 participants and a crash.  Also:
    Mutex with the OLD bitmap initialisation satisfies the invariants (that regression is invisible
    through run(), hence the bare part).
  2 SCHEDULES  (a) in the OLD protocols TLC reports, breadth first, the shortest violating
    interleaving per class <<violated invariants, last step, phase>> and every violating behaviour
    with few preemptions - the windows a regression would reopen; (b) every behaviour of the NEW
-   protocol with at most k preemptions (also with one crash), random NEW behaviours (-simulate),
-   seeded random interleavings; the same for the bare FMMULock protocol.
+   protocol with at most k preemptions (also with one crash, also with one failing start-up call),
+   the shortest behaviour ending in a failing start-up call per <<call, what the others are doing>>
+   for 3 participants (MC_Parallel: NewFault), random NEW behaviours (-simulate), seeded random
+   interleavings (with occasional failing calls); the same for the bare FMMULock protocol.
+   After a schedule, whoever is starting or stopping finishes (error handlers included), the
+   remaining participants join, then the running ones leave one by one.
  3 REPLAY  every schedule runs on the REAL ParallelEtherCat.run() / LockFile / FMMULock (bare
    part: the real FMMULock(path) ... remove()) in one real OS process per participant, one gated
    system call at a time (harness/parworker; crash = SIGKILL).  A participant that would wait in
@@ -65,14 +71,21 @@ def unique_workdir(ctx):
     return ctx.workdir(f"C23-{next(_WD)}")
 
 
+def env_of(crash):
+    """the environment argument of the TLC jobs: n crashes, or (crashes, failing start-up calls)"""
+    return crash if isinstance(crash, tuple) else (crash, 0)
+
+
 def cfg_text(spec, proto, nprocs, crash, pre, body, addrs=None):
     k = CONSTS[nprocs]
+    crash, fault = env_of(crash)
     procs = ", ".join('"p%d"' % i for i in range(1, nprocs + 1))
     return f"""SPECIFICATION {spec}
 CONSTANTS Procs = {{{procs}}}
           REth = {k['reth']}
           Addrs = {addrs or k['addrs']}
           MaxCrash = {crash}
+          MaxFault = {fault}
           MaxPre {'<- Unbounded' if pre is None else '= %d' % pre}
           Mutex = {TF[proto['mutex']]}
           LockedInit = {TF[proto['locked']]}
@@ -83,7 +96,9 @@ CHECK_DEADLOCK FALSE
 
 
 def label(proto, nprocs, crash, pre):
-    return f"{proto['name']} {nprocs}p" + ("+crash" if crash else "") + ("" if pre is None else f"/pre{pre}")
+    crash, fault = env_of(crash)
+    return f"{proto['name']} {nprocs}p" + ("+crash" if crash else "") + ("+fault" if fault else "") + \
+        ("" if pre is None else f"/pre{pre}")
 
 
 def mode_of(proto):
@@ -109,10 +124,10 @@ def tlc_mc(ctx, proto, nprocs, crash, pre, design, workers=4):
     return ("design " if design else "mc_full ") + label(proto, nprocs, crash, pre), res, []
 
 
-def parse_classes(out):
-    """error traces of a -continue run printed through Alias -> [(violated names, schedule)]"""
+def parse_classes(out, inv="NewClass"):
+    """error traces of a -continue run printed through Alias -> [(violated names, schedule, phase)]"""
     found = []
-    for block in out.split("Error: Invariant NewClass is violated.")[1:]:
+    for block in out.split(f"Error: Invariant {inv} is violated.")[1:]:
         block = block.split("Error: Invariant")[0]
         steps, viol, ph = [], [], "-"
         for m in re.finditer(r"^/\\ (last|viol|ph) = (.*)$", block, re.M):
@@ -123,8 +138,8 @@ def parse_classes(out):
                 viol = v
             else:
                 ph = v
-        sched = [dict(p=s["p"], a=s["a"], c=s["c"]) for s in steps if s["p"] != "none"]
-        if not sched or not viol:
+        sched = [dict(p=s["p"], a=s["a"], c=s["c"], f=bool(s.get("f", False))) for s in steps if s["p"] != "none"]
+        if not sched or (not viol and inv == "NewClass"):
             raise T.MachineryError("cannot read a counterexample of MC_Parallel:\n" + block[:1500])
         found.append((sorted(viol), sched, ph))
     return found
@@ -147,6 +162,32 @@ def tlc_classes(ctx, proto, nprocs, crash, pre, workers=1):
             best[k] = (v, s)
     return src, res, [dict(source=src, nprocs=nprocs, mode=mode_of(proto), predicted=v, schedule=s, cls=list(k[1:]))
                       for k, (v, s) in sorted(best.items())]
+
+
+def tlc_faultcover(ctx, proto, nprocs, crash, pre, workers=4):
+    """shortest behaviour ending with a failing start-up call, per <<call, what the others are doing>>"""
+    wd = unique_workdir(ctx)
+    T.write_cfg(wd, "f.cfg", cfg_text("PSpec", proto, nprocs, crash, pre, "INVARIANT NewFault\nALIAS Alias"
+                                      + ("\nCONSTRAINT StartOrder" if nprocs > 2 else "")))
+    res = T.require_clean(T.run(wd, "MC_Parallel", "f.cfg", workers=workers, timeout=3000, extra=("-continue",)),
+                          "MC_Parallel")
+    if "Model checking completed" not in res.out and not res.finished:
+        raise T.MachineryError("MC_Parallel (failing calls) did not finish:\n" + res.out[-2000:])
+    src = "fault-cover " + label(proto, nprocs, crash, pre)
+    best = {}
+    for _, sch, _ in parse_classes(res.out, "NewFault"):
+        running = {}                             # who is inside its context when the call fails
+        for st in sch[:-1]:
+            if st["a"] == "close:mutex":
+                running[st["p"]] = running.get(st["p"], 0) + 1
+        k = (sch[-1]["a"], tuple(sorted(running.values())), len({st["p"] for st in sch}))
+        if k not in best or len(sch) < len(best[k]):
+            best[k] = sch
+    found = [dict(source=src, nprocs=nprocs, mode=mode_of(proto), predicted=[], schedule=sch)
+             for _, sch in sorted(best.items())]
+    if not found:
+        raise T.MachineryError("no behaviour with a failing start-up call found:\n" + res.out[-1500:])
+    return src, res, found
 
 
 def tlc_scripts(ctx, proto, nprocs, crash, pre, addrs=None, simulate=None, seed=None):
@@ -178,7 +219,7 @@ def random_schedules(ctx, n, mode="run"):
         while len(sched) < (60 if mode == "run" else 20) * k:
             p = ctx.rng.choice(procs)
             for _ in range(ctx.rng.randrange(1, burst + 1)):
-                sched.append(dict(p=p, a=None, c=0))
+                sched.append(dict(p=p, a=None, c=0, f=mode == "run" and ctx.rng.random() < 0.04))
         if ctx.rng.random() < 0.3:
             sched.insert(ctx.rng.randrange(5, len(sched)), dict(p=ctx.rng.choice(procs), a="crash", c=0))
         out.append(dict(source="random " + mode, nprocs=k, mode=mode, predicted=[], schedule=sched, random=True))
@@ -193,11 +234,12 @@ def _replay_chunk(args):
     pool, out = [], []
     try:
         retries = 3
-        for k, sched, mode in items:
-            tr = parworker.replay(repo, base, sched, tag=f"s{k}", pool=pool, mode=mode, timeout=60.0)
+        for k, sched, mode, procs in items:
+            tr = parworker.replay(repo, base, sched, tag=f"s{k}", pool=pool, mode=mode, timeout=60.0, procs=procs)
             if tr["hang"] and retries:           # a process that does not answer within a minute on a
                 retries -= 1                     # crowded machine: a real hang shows again
-                tr = parworker.replay(repo, base, sched, tag=f"s{k}", pool=pool, mode=mode, timeout=120.0)
+                tr = parworker.replay(repo, base, sched, tag=f"s{k}", pool=pool, mode=mode, timeout=120.0,
+                                      procs=procs)
             out.append((k, tr))
     finally:
         for w in pool:
@@ -212,7 +254,8 @@ def replay_schedules(ctx, scheds, controllers=6):
     import ebpfcat.ebpfcat                       # imported before forking: all processes inherit it
     base = os.path.join(T.WORK, f"c23par-{os.getpid()}")
     os.makedirs(base, exist_ok=True)
-    items = [(k, sc["schedule"], sc.get("mode", "run")) for k, sc in enumerate(scheds)]
+    items = [(k, sc["schedule"], sc.get("mode", "run"), ["p1", "p2", "p3"][:sc.get("nprocs", 0)])
+             for k, sc in enumerate(scheds)]
     n = max(1, min(controllers, len(items) // 4))
     out = [None] * len(items)
     try:
@@ -234,7 +277,9 @@ def executed(ev):
 
 
 def text(ev):
-    return " ".join(f"{e['p'][1:]}.{e['a']}" + (f"={e['c']}" if e["c"] else "") for e in ev)
+    """1.attach! = participant 1's attach fails (environment); =n the value randrange handed out"""
+    return " ".join(f"{e['p'][1:]}.{e['a']}" + (f"={e['c']}" if e["c"] else "") + ("!" if e.get("f") else "")
+                    for e in ev)
 
 
 # ---- TLC judges ----------------------------------------------------------------------------
@@ -247,6 +292,7 @@ CONSTANTS Procs = {{"p1", "p2", "p3"}}
           REth = {{12289, 12290, 12291, 12292}}
           Addrs = {{1, 2, 3, 4, 9}}
           MaxCrash = 0
+          MaxFault = 0
           MaxPre = 0
           Mutex = TRUE
           LockedInit = TRUE
@@ -256,7 +302,8 @@ CHECK_DEADLOCK FALSE
 """)
     results = []
     for start in range(0, len(traces), chunk):
-        part = [dict(ev=[dict(p=e["p"], a=e["a"], c=e["c"], obs=e["obs"], st=e["st"]) for e in t["ev"]])
+        part = [dict(ev=[dict(p=e["p"], a=e["a"], c=e["c"], f=bool(e.get("f", False)), obs=e["obs"], st=e["st"])
+                         for e in t["ev"]])
                 for t in traces[start:start + chunk]]
         path = os.path.join(wd, f"traces_{spec}_{int(bare)}_{start}.json")
         with open(path, "w") as f:
@@ -321,6 +368,9 @@ def facts(ev, upto):
                 joined_old.append(dict(joiner=e["p"], table=e["st"][e["p"]]["tab"], installing=inst, step=i + 1))
     return dict(late_teardown=late, creator_window=window, running=running, stale_handle=stale,
                 joined_during_install=joined_old, crashed=sorted({e["p"] for e in part if e["a"] == "crash"}),
+                failed_calls=[[e["p"], e["a"]] for e in part if e.get("f")],
+                removed_lockdir=[[e["p"], e["a"]] for i, e in enumerate(part) if i and e["a"] != "rmdir"
+                                 and part[i - 1]["obs"]["lockdir"]["ex"] and not e["obs"]["lockdir"]["ex"]],
                 last_call=[last["p"], last["a"]], att=last["obs"]["att"], pin=last["obs"]["pin"],
                 windows={p: last["st"][p]["win"] for p in running},
                 ethertypes={p: last["st"][p]["eth"] for p in running})
@@ -372,13 +422,12 @@ def run(ctx):
     # (heavy runs first so that they overlap)
     jobs = [
         # 1 design verification of the NEW protocol (and of what run() cannot show)
-        (tlc_mc, (ctx, NEW, 3, 0, None, True)),
         # 2a the windows of the OLD protocols
         (tlc_classes, (ctx, OLD, 3, 0, 2 if quick else None, 4)),
         (tlc_classes, (ctx, BARE_OLD, 3, 0 if quick else 1, None, 4)),
         (tlc_mc, (ctx, BARE_NEW, 3, 1, None, True)),
-        (tlc_mc, (ctx, NEW, 2, 0, None, True, 2)),
-        (tlc_mc, (ctx, NEW, 2, 1, None, True, 2)),
+        (tlc_mc, (ctx, NEW, 2, (1, 1), None, True, 2)),
+        (tlc_mc, (ctx, NEW, 3, (0, 1), None, True) if quick else (ctx, NEW, 3, (1, 1), None, True)),
         (tlc_mc, (ctx, OLDINIT, 2 if quick else 3, 1, None, True, 2 if quick else 4)),
         (tlc_classes, (ctx, OLD, 2, 0, None)),
         (tlc_classes, (ctx, NOMUTEX, 2, 0, None)),
@@ -387,12 +436,17 @@ def run(ctx):
         # 2b behaviours of the NEW protocol
         (tlc_scripts, (ctx, NEW, 2, 0, 1, None if quick else "{1, 2, 9}")),
         (tlc_scripts, (ctx, NEW, 2, 1, 0 if quick else 1)),
+        # ... in an environment where a start-up call fails (connect, create_map, attach, pin, obj_get)
+        (tlc_scripts, (ctx, NEW, 2, (0, 1), 1)),
+        (tlc_faultcover, (ctx, NEW, 3, (0, 1), 1 if quick else None)),
         (tlc_scripts, (ctx, NEW, 3, 0, None, None, "num=%d" % (50 if quick else 600), 23)),
         (tlc_scripts, (ctx, BARE_NEW, 2, 0, 2)),
-        (tlc_scripts, (ctx, BARE_NEW, 3, 0, 0 if quick else 1)),
         ]
-    if not quick:
+    if not quick:                                # (quick: the runs with a failing call subsume these)
         jobs = [(tlc_mc, (ctx, NEW, 3, 1, None, True)),
+                (tlc_mc, (ctx, NEW, 3, 0, None, True)),
+                (tlc_mc, (ctx, NEW, 2, 0, None, True, 2)),
+                (tlc_scripts, (ctx, BARE_NEW, 3, 0, 1)),
                 (tlc_classes, (ctx, OLD, 2, 1, None)),
                 (tlc_scripts, (ctx, BARE_NEW, 3, 1, None, None, "num=300", 25)),
                 (tlc_classes, (ctx, NOMUTEX, 3, 0, 2, 4)),
@@ -413,7 +467,15 @@ def run(ctx):
             continue
         info["schedules"] = len(found)
         ctx.extra[name] = info
-        if name.startswith("bounded"):          # keep every predicted violation, stride the others
+        if name.startswith("bounded") and "+fault" in name:
+            # the fault-free behaviours are covered above: keep those with a failing call and,
+            # of these, the ones in which somebody else is inside its context at that moment
+            found = [s for s in found if any(st.get("f") for st in s["schedule"])]
+            info["with_failing_call"] = len(found)
+            limit = 100 if quick else 900
+            found = found[::max(1, -(-len(found) // limit))]
+            info["replayed"] = len(found)
+        elif name.startswith("bounded"):        # keep every predicted violation, stride the others
             keep = [s for s in found if s["predicted"]]
             rest = [s for s in found if not s["predicted"]]
             limit = (50 if "old" in name else 60 if "3p" in name else 100) if quick else \
@@ -488,7 +550,9 @@ def run(ctx):
                 "interleavings, also with a crash and with only the mutex missing; 3 participants <= 2 preemptions "
                 "in quick, all in thorough; bare FMMULock 3 participants with a crash) and the violating behaviours "
                 "with <= 1 (thorough 2) preemptions; (b) from the NEW protocol every behaviour of 2 participants "
-                "with <= 1 (thorough 2) preemptions, with one crash <= 1 (strided to the stated limits), random "
+                "with <= 1 (thorough 2) preemptions, with one crash <= 1, with one failing start-up call (connect, "
+                "create_map, attach, obj_pin, obj_get) <= 1 (strided to the stated limits), for 3 participants the "
+                "shortest behaviour ending in a failing start-up call per <<call, what the others are doing>>, random "
                 "3-participant behaviours (-simulate, fixed seed), bounded and simulated behaviours of 3 bare "
                 "FMMULock users, seeded random interleavings; non-trivial = the steps of at least two participants "
                 "interleave")
@@ -497,6 +561,9 @@ def run(ctx):
         "sandbox kernel on the private directory; bpf map/pin/get and XDP attach/detach are recorders with the "
         "kernel's documented semantics (pin: EEXIST, get: ENOENT, attach replaces, detach removes whatever is attached)",
         "interleaving granularity is the system call; local steps between two gated calls are atomic",
+        "environment failures are injected into the kernel-facing calls of the start-up only (OSError from connect, "
+        "create_map, attach, obj_pin, obj_get), at most one per schedule; failing calls of the stop sequence and "
+        "failing file-system calls are not injected",
         "the design verification is exhaustive for the stated numbers of participants and one crash; the replay "
         "shows the real code follows the verified protocol on the replayed schedules (conformance percentage)"]
 
